@@ -121,6 +121,7 @@ let diagnose_infer (p : program) (fd : func) : string =
 
 (* annotations of the last verified `as-compiled` program, for checking real traces against them *)
 let last_annots : (astate option array array) option ref = ref None
+let last_code : instr array array ref = ref [||]
 
 let verify_prog (print_annot : bool) (name : string) (fields : Sexp.t list) : string * string list =
   let (p, ninstr) = program_of fields in
@@ -139,6 +140,7 @@ let verify_prog (print_annot : bool) (name : string) (fields : Sexp.t list) : st
          let d = match infer_function p fd with None -> diagnose_infer p fd | Some _ -> diagnose p fd in
          Error (Printf.sprintf "(%s reject (fn %d) %s)" name idx d)) in
   let r = go 0 p.p_funcs (0, 0, []) in
+  (if name = "as-compiled" then last_code := Array.of_list (List.map (fun fd -> Array.of_list fd.f_code) p.p_funcs));
   (if name = "as-compiled" then
      last_annots := (match r with Ok _ -> Some (Array.of_list (List.rev !collected)) | Error _ -> None));
   match r with
@@ -171,7 +173,11 @@ let check_trace (entries : Sexp.t list) : string =
                 | None -> bad := Some (Printf.sprintf "(trace-mismatch %d (fn %d) (pc %d) \"executed a pc the verifier deems unreachable\")" !n f pc)
                 | Some a ->
                   let h = int_of_nat a.a_h and lo = int_of_nat a.a_lo and hi = int_of_nat a.a_hi in
-                  if sl - base <> h || ll - lb < lo || ll - lb > hi then
+                  (* a Select is re-entered at the same pc after its source value has been popped
+                     into the select state (and again with a filter's verdict on top): heights h-1 and h *)
+                  let is_select = (try (match (!last_code).(f).(pc) with ISelect -> true | _ -> false) with _ -> false) in
+                  let h_ok = sl - base = h || (is_select && sl - base = h - 1) in
+                  if not h_ok || ll - lb < lo || ll - lb > hi then
                     bad := Some (Printf.sprintf "(trace-mismatch %d (fn %d) (pc %d) \"annotation (%d %d %d), real height %d locals %d\")" !n f pc h lo hi (sl - base) (ll - lb)))
           | _ -> ()) entries;
     match !bad with Some m -> m | None -> Printf.sprintf "(trace-ok %d)" !n
